@@ -204,6 +204,14 @@ class UpgradedSignature(_util.funcsigs.Signature):
             parameters = self.parameters.values()
         else:
             parameters = _upgrade_parameters_with_warning(parameters, stacklevel=_stacklevel + 1)
+            if sources is self.sources and parameters is not None:
+                # entries of parameters that are gone (inspect drops the
+                # first parameter of a bound method this way) go with them
+                names = set(param.name for param in parameters)
+                names.add('+depths')
+                if not names.issuperset(sources):
+                    sources = dict(
+                        (k, v) for k, v in sources.items() if k in names)
         try:
             upgraded_return_annotation = kwargs.pop("upgraded_return_annotation")
         except KeyError:
